@@ -12,6 +12,7 @@ CONSTANTS
   Policy = "rr"
   Selectors = {"s1", "s2"}
   MaxSel = 6
+  TornDraw = FALSE
   Kinds = {"add"}
-INVARIANTS BTypeOK SelectedWasUsable BackupOnlyIfNoMain RandomInCandidates LCNotBusier RRFair EstablishedClosable
+INVARIANTS BTypeOK NoCrash SelectedWasUsable BackupOnlyIfNoMain RandomInCandidates LCNotBusier RRFair EstablishedClosable
 CHECK_DEADLOCK FALSE
